@@ -1672,3 +1672,54 @@ _RT19 = {
 }
 for _p, _l in _RT19.items():
     VARIANTS.setdefault(_p, []).extend(_l)
+
+_RT20 = {
+    'C14': [
+        M('rt20-writeback-shifted',
+          (OPT, '        for idvar, var in enumerate(self.problem.variables):\n'
+                '            var.update(x[idvar])\n',
+           '        for idvar, var in enumerate(self.problem.variables):\n'
+           '            var.update(x[idvar - 1])\n')),
+        M('rt20-update-optics-noop',
+          (OPT, '        for optic in unique_optics:\n            optic.update()',
+           '        for optic in unique_optics:\n            pass')),
+        M('rt20-ls-lower-from-upper',
+          (OPT, 'lower = [var.bounds[0] if var.bounds[0] is not None',
+           'lower = [var.bounds[1] if var.bounds[0] is not None')),
+    ],
+    'C12': [
+        M('rt20-operand-centroid-wavelength',
+          (O + 'optimization/operand/ray.py',
+           'mean_x = np.mean(x[wave_idx])', 'mean_x = np.mean(x[wave_idx - 1])')),
+        M('rt20-operand-x-y-mixed',
+          (O + 'optimization/operand/ray.py',
+           'r2 = [(x[i] - mean_x)**2 + (y[i] - mean_y)**2',
+           'r2 = [(x[i] - mean_x)**2 + (x[i] - mean_y)**2')),
+        M('rt20-pa-field-swapped',
+          (_PA, '            Hy = field[1]\n', '            Hy = field[0]\n')),
+    ],
+    'C03': [
+        M('rt20-vig-branch-inverted',
+          (_FD, 'if np.all(self.x_fields == 0):',
+           'if np.all(self.x_fields != 0):')),
+        M('rt20-vig-guard-inverted',
+          (_FD, '            if self.max_field == 0:\n',
+           '            if self.max_field != 0:\n')),
+    ],
+    'C02': [
+        M('rt20-conic-z-of-root',
+          (ST, '        # find intersection points in z\n'
+               '        z1 = rays.z + t1 * rays.N\n',
+           '        # find intersection points in z\n'
+           '        z1 = rays.z - t1 * rays.N\n')),
+        M('rt20-conic-no-linear-arm',
+          (ST, '        t[a == 0] = -c[a == 0] / b[a == 0]\n', '')),
+    ],
+    'C17': [
+        M('rt20-launch-phase',
+          (_PR, 'E = (state.Ex * np.exp(1j * state.phase_x) * s +',
+           'E = (state.Ex * np.exp(1j / state.phase_x) * s +')),
+    ],
+}
+for _p, _l in _RT20.items():
+    VARIANTS.setdefault(_p, []).extend(_l)
